@@ -67,6 +67,7 @@ def run(ctx):
     ctx.section(lambda c: null_rule(c, 'R-C11a', ANCHOR_FILES))
     ctx.section(regions_and_dead)
     ctx.section(kill_gate)
+    ctx.section(status_table)
     ctx.section(records)
     ctx.rule('R-C11f', 'nothing is delivered after unregistration: the delivery loop re-tests the per-thread handled-interest marker before '
                        'each handler call and touches the interest afterwards only behind it; unregister clears that marker when it '
@@ -282,3 +283,24 @@ def delivery(ctx):
             ctx.ob('R-C11f', inst, ok, **kw)
     if n < 2:
         raise AnalysisBroken('wait delivery marker rules not found')
+
+
+def status_table(ctx, rid='R-C11d'):
+    """The terminating-status predicate evaluated on the four kinds of wait
+    status (Linux encodings): exited and killed-by-signal are terminal, stopped
+    and continued are not."""
+    from .. import interp
+    prog = ctx.prog
+    f = prog.fn('iv_wait_status_dead')
+    p = f.params[0]['name']
+    cases = [('exited(0)', 0x0000, 1), ('exited(3)', 0x0300, 1), ('killed(SIGTERM)', 15, 1), ('killed(SIGKILL)+core', 9 | 0x80, 1),
+             ('stopped(SIGSTOP)', (19 << 8) | 0x7f, 0), ('continued', 0xffff, 0)]
+    for name, val, want in cases:
+        try:
+            r = interp.run(f, interp.Assignment(), env={p: val})['ret']
+        except AnalysisBroken as ex:
+            ctx.ob(rid, 'status_dead:%s' % name, False, loc=f.loc, detail=str(ex), fn=f.q)
+            continue
+        ctx.ob(rid, 'status_dead:%s' % name, isinstance(r, int) and bool(r) == bool(want), loc=f.loc,
+               detail='classified %s, expected %s (a terminating status that is not recognised leaves the pid in the set and the dead flag '
+                      'clear: the kill helper would signal a reaped pid)' % (r, want), fn=f.q)
